@@ -81,8 +81,11 @@ def k_rep_chain(case):
             # the finding's mechanism, as proved of the model (C10_io_repetition_backed): only the INDEX is wrong - the node
             # object is still an item of the parent container, and a wrong t2 link carries t1's parameter
             and case.get("backed") is True and case.get("t2_param_is_t1_param") is True
-            # C10_io_repetition_chains_aligned: under the guards aligned + sibinj the chain is right; a failure there is new
-            and case.get("aligned_and_sibinj") is not True)
+            # C10_io_repetition_chains_aligned: under the guards aligned + sibinj every reported index leads to an object EQUAL
+            # to the node's (the model has no identity): only the "first item's object, equal but not identical" half of the
+            # finding can show there; a wrong index on aligned inputs is new
+            and (case.get("aligned_and_sibinj") is not True
+                 or set(case.get("problem_tags", ["?"])) <= {"t1-eq-not-is", "t2-eq-not-is"}))
 
 
 MATCHERS = {"C10-to_json-non-utf8-bytes": k_json_bytes,
